@@ -228,6 +228,11 @@ pub fn c09(g: &mut Gen) {
         let v = samples_tok(g, &net, &Sh::Flat(3), 3);
         g.push(format!("net {} learn 4 {} 1 3 {} 5 2 3 0", net.token(), s, v), Tol::Loose, &format!("dense-x{}/learn-with-validation", depth), true);
         g.push(format!("net {} learn 4 {} 0 2 2 0", net.token(), s), Tol::Loose, &format!("dense-x{}/learn", depth), true);
+        // early stopping fires (scripted rising validation loss): the flags must be off afterwards all the same
+        for (thr, script) in [(2usize, vec![1.0f32, 2.0, 3.0, 4.0, 5.0, 6.0]), (3, vec![3.0, 1.0, 2.0, 3.0, 4.0, 5.0]), (1, vec![1.0, 1.0, 1.0, 1.0])] {
+            g.push(format!("net {} learn 4 {} 1 3 {} {} 2 {} {} {}", net.token(), s, v, thr, script.len(), script.len(), q1(&script)),
+                Tol::Loose, &format!("dense-x{}/learn-early-stop", depth), true);
+        }
     }
     for _ in 0..g.n(40, 800) {
         let (mut net, out) = random_net(g, &cfg);
@@ -241,8 +246,16 @@ pub fn c09(g: &mut Gen) {
             }
             1 => {
                 let v = samples_tok(g, &net, &out, 2);
-                let e = g.rng().range(1, 3);
-                g.push(format!("net {} learn {} {} 1 2 {} 5 2 {} 0", net.token(), n, s, v, e), Tol::Loose, "random/learn-with-validation", true)
+                if g.rng().below(2) == 0 {
+                    let e = g.rng().range(1, 3);
+                    g.push(format!("net {} learn {} {} 1 2 {} 5 2 {} 0", net.token(), n, s, v, e), Tol::Loose, "random/learn-with-validation", true)
+                } else {
+                    // scripted validation losses, often rising: early stopping may fire
+                    let len = g.rng().range(3, 7);
+                    let script: Vec<f32> = (0..len).map(|i| if g.rng().below(4) == 0 { 1.0 } else { 1.0 + i as f32 }).collect();
+                    let thr = g.rng().range(1, 4);
+                    g.push(format!("net {} learn {} {} 1 2 {} {} 2 {} {} {}", net.token(), n, s, v, thr, len, script.len(), q1(&script)), Tol::Loose, "random/learn-early-stop", true)
+                }
             }
             _ => g.push(format!("net {} learn {} {} 0 2 2 0", net.token(), n, s), Tol::Loose, "random/learn", true),
         }
@@ -273,6 +286,22 @@ pub fn c04(g: &mut Gen) {
                 let s = samples_tok(g, &net, &out, n);
                 g.push(format!("net {} learn {} {} 0 {} {} 0", net.token(), n, s, b, e), Tol::Loose, &format!("{}/N{}/B{}", o.kind(), n, b), true);
             }
+        }
+    }
+    // every bias on/off pattern of a three-layer MLP (the per-layer bias gradients are summed over the batch
+    // layer by layer; a layer without bias sits between layers with one), B = 2 and B > N
+    for pat in 0..8u32 {
+        for (n, b) in [(5usize, 2usize), (4, 7)] {
+            if !g.ctx.thorough() && b == 7 && pat % 2 == 1 { continue; }
+            let c = ArchCfg { conv: false, deconv: false, pool: false, flat_input: Some(true), ..cfg.clone() };
+            let mut builds = Vec::new();
+            let dims = [3usize, 4, 3, 2];
+            for li in 0..3 {
+                builds.push(Build::Layer(dense_spec(g, &c, dims[li], dims[li + 1], "tanh", pat & (1 << li) != 0)));
+            }
+            let net = NetSpec { input: Shape::Single(3), builds, skipacc: "add".into(), loopacc: "mean".into(), opt: Some(OptSpec::Sgd(0.05, None)), obj: "mse".into(), clamp: None };
+            let s = samples_tok(g, &net, &Sh::Flat(2), n);
+            g.push(format!("net {} learn {} {} 0 {} 2 0", net.token(), n, s, b), Tol::Loose, &format!("bias-pattern-{:03b}/N{}/B{}", pat, n, b), true);
         }
     }
     // batch size 0 is refused
